@@ -12,6 +12,14 @@
 //!                     (must be Err), and the complete stream (must restore the object exactly)
 //!  * `read_faults`    every object x read limit: complete stream with one Interrupted / one hard error at EVERY
 //!                     read-call index; for short encodings additionally every (truncation offset, Interrupted index)
+//!  * `big_write`      production-size objects (encodings that cross 4 KiB, 32 KiB, 64 KiB, 1 MiB; N up to 8192, up to 18 primes,
+//!                     sizes 2..4, containers of up to 1024 entries, vectors of 4095 / 4096 / 4097 / 8193 words): writers
+//!                     accepting {unlimited, 1, 7, 4096} bytes per call x one deviation at the first, the last, every 2^k-th
+//!                     call, every header / border call and every bulk call, short counts {1, e-1, 4095, 4096, 4097}; short
+//!                     accept + deviation at the retry for bulk calls
+//!  * `big_read`       the same objects x read limits {1, 7, 4096, unlimited}: every truncation offset within the first and
+//!                     the last 256 bytes and at every 2^k and 4096 j boundary +- 1; one Interrupted / hard error / short
+//!                     delivery at the selected read calls
 //!
 //! A writer deviation at call index i is one of: accept only k of the offered bytes (1 <= k <= 7, k < offered),
 //! fail with ErrorKind::Other, fail with ErrorKind::Interrupted (to be retried per the `Write` contract), return
@@ -52,6 +60,7 @@ pub fn describe(rep: &Report) {
     rep.assume("an Err result is accepted for every faulty writer (the statement allows 'or returns an error'), also for writers that only short-accept or interrupt; Ok is accepted only with the complete reference encoding in the sink and the exact byte count");
     rep.assume("streams are only truncated or delayed, never altered: corrupted (bit-flipped) encodings are outside this property (by reading: a corrupted length field reaches Vec::with_capacity / indexing unchecked, a corrupted parms id reaches get_context_data(..).unwrap())");
     rep.assume("the fault-injecting sink never holds more than the reference encoding and both streams panic after 2*len+64 calls, so a looping (de)serializer is reported (writes-beyond-encoding / unbounded-writes / unbounded-reads) instead of exhausting memory; the address space is limited to 8 GiB and a process abort inside a case (allocation failure) is turned into a VIOLATION with a replay file by a SIGABRT handler");
+    rep.assume("big_write / big_read: the fault family is derived from the recorded call trace of the serializer under test, so it follows the call granularity of the code (byte-wise today, block-wise after a buffering change); it is complete for traces of <= 768 calls and otherwise restricted to the first / last 32, the 2^k-th (+-1) calls of three lists (all calls, calls where the offered length changes, calls offering > 8 bytes); truncation offsets are restricted to the first / last 256 bytes and the 2^k and 4096 j boundaries +- 1. A short delivery by a reader is legal reader behaviour: the object must still be restored");
     rep.assume("failing scripts are reduced (drop the cap, drop single deviations) before the violation key is formed; key = direction : source-file family of the entry point : symptom : remaining fault kinds : bytes offered at the first fault");
 }
 
@@ -300,6 +309,14 @@ pub struct ObjSpec {
     /// kind-specific: scalar value index, ciphertext size (2/3), plaintext form, container shape, galois key set
     #[serde(default)]
     pub variant: u8,
+    /// production-size sections only: container length / vector length / plaintext coefficient count (0 = the shape
+    /// selected by `variant`); not serialized when 0, so the documents of the small objects are unchanged
+    #[serde(default, skip_serializing_if = "is_zero_u32")]
+    pub len: u32,
+}
+
+fn is_zero_u32(x: &u32) -> bool {
+    *x == 0
 }
 
 type SerFn = Box<dyn Fn(&mut dyn Write) -> io::Result<usize>>;
@@ -583,8 +600,37 @@ fn shape3<T: Clone>(variant: u8, items: &[T]) -> Vec<Vec<Vec<T>>> {
     }
 }
 
+/// `len` > 0 (production-size sections): exactly `len` items; rows of 8 (the last one partial), planes of 4 rows
+fn shape1l<T: Clone>(len: u32, variant: u8, items: &[T]) -> Vec<T> {
+    if len == 0 {
+        return shape1(variant, items);
+    }
+    items[..len as usize].to_vec()
+}
+fn shape2l<T: Clone>(len: u32, variant: u8, items: &[T]) -> Vec<Vec<T>> {
+    if len == 0 {
+        return shape2(variant, items);
+    }
+    items[..len as usize].chunks(8).map(|r| r.to_vec()).collect()
+}
+fn shape3l<T: Clone>(len: u32, variant: u8, items: &[T]) -> Vec<Vec<Vec<T>>> {
+    if len == 0 {
+        return shape3(variant, items);
+    }
+    shape2l(len, variant, items).chunks(4).map(|p| p.to_vec()).collect()
+}
+
 fn terms_for(n: usize) -> Vec<usize> {
     vec![0, 2, n - 1]
+}
+
+/// `len` > 0 (production-size sections): `len` evenly spread term indices
+fn terms_for_l(n: usize, len: u32) -> Vec<usize> {
+    if len == 0 {
+        return terms_for(n);
+    }
+    let len = (len as usize).min(n);
+    (0..len).map(|i| i * n / len).collect()
 }
 
 pub fn build(o: &ObjSpec, seed: u64) -> Result<Obj, String> {
@@ -598,7 +644,8 @@ pub fn build(o: &ObjSpec, seed: u64) -> Result<Obj, String> {
         Kind::Bool => return Ok(obj_s(v % 2 == 1, fp_bool)),
         Kind::F64 => return Ok(obj_s([0.0f64, -1.5, f64::from_bits(0x7ff8_0000_0000_0001)][v as usize % 3], fp_f64)),
         Kind::VecU64 => {
-            let x: Vec<u64> = (0..v as usize).map(|i| h64(&(seed, tag, i))).collect();
+            let count = if o.len > 0 { o.len as usize } else { v as usize };
+            let x: Vec<u64> = (0..count).map(|i| h64(&(seed, tag, i))).collect();
             return Ok(obj_s(x, fp_vec_u64));
         }
         Kind::ParmsId => return Ok(obj_s([h64(&(seed, 1u8)), 0, u64::MAX, h64(&(seed, 2u8))] as ParmsID, fp_parms_id)),
@@ -611,6 +658,16 @@ pub fn build(o: &ObjSpec, seed: u64) -> Result<Obj, String> {
     let ctx = w.kit.ctx.clone();
     let n = o.spec.n;
     match o.kind {
+        Kind::Plain if o.len > 0 && v == 0 => {
+            // coefficient form with exactly `len` coefficients below t
+            let t = w.kit.t().max(2);
+            let mut p = Plaintext::new();
+            p.resize(o.len as usize);
+            for i in 0..o.len as usize {
+                p.data_mut()[i] = w.fill(7, i) % t;
+            }
+            Ok(obj_s(p, fp_pt))
+        }
         Kind::Plain => Ok(obj_s(w.pt(7, v == 1), fp_pt)),
         Kind::SecretKey => Ok(obj_s(w.kit.sk.clone(), fp_sk)),
         Kind::Ct => {
@@ -632,7 +689,7 @@ pub fn build(o: &ObjSpec, seed: u64) -> Result<Obj, String> {
         }
         Kind::CtTerms => {
             let c = w.ct_any(v as u64, v as usize, o.seeded)?;
-            let terms = terms_for(n);
+            let terms = terms_for_l(n, o.len);
             let size = c.serialized_terms_size(&ctx, terms.len());
             let (c1, c2, t1, t2) = (ctx.clone(), ctx.clone(), terms.clone(), terms);
             Ok(Obj {
@@ -696,14 +753,14 @@ pub fn build(o: &ObjSpec, seed: u64) -> Result<Obj, String> {
                 ref_fp: Some(h64(&reference)),
             })
         }
-        Kind::Plain1d => Ok(obj_s(Plain1d::new(shape1(v, &w.pts(3))), fp_p1)),
-        Kind::Plain2d => Ok(obj_s(Plain2d::new(shape2(v, &w.pts(3))), fp_p2)),
+        Kind::Plain1d => Ok(obj_s(Plain1d::new(shape1l(o.len, v, &w.pts(3.max(o.len as usize)))), fp_p1)),
+        Kind::Plain2d => Ok(obj_s(Plain2d::new(shape2l(o.len, v, &w.pts(3.max(o.len as usize)))), fp_p2)),
         Kind::Plain3d => {
-            let x = Plain3d::new_2ds(shape3(v, &w.pts(3)).into_iter().map(Plain2d::new).collect());
+            let x = Plain3d::new_2ds(shape3l(o.len, v, &w.pts(3.max(o.len as usize))).into_iter().map(Plain2d::new).collect());
             Ok(obj_s(x, fp_p3))
         }
         Kind::Cipher1d | Kind::Cipher1dTerms => {
-            let x = Cipher1d::new(shape1(v, &w.cts(3, o.seeded)?));
+            let x = Cipher1d::new(shape1l(o.len, v, &w.cts(3.max(o.len as usize), o.seeded)?));
             if o.kind == Kind::Cipher1d {
                 let r = x.clone().expand_seed(&ctx);
                 return Ok(obj_c(x, &r, &ctx, fp_c1));
@@ -719,7 +776,7 @@ pub fn build(o: &ObjSpec, seed: u64) -> Result<Obj, String> {
             })
         }
         Kind::Cipher2d | Kind::Cipher2dTerms => {
-            let x = Cipher2d::new(shape2(v, &w.cts(3, o.seeded)?));
+            let x = Cipher2d::new(shape2l(o.len, v, &w.cts(3.max(o.len as usize), o.seeded)?));
             if o.kind == Kind::Cipher2d {
                 let r = x.clone().expand_seed(&ctx);
                 return Ok(obj_c(x, &r, &ctx, fp_c2));
@@ -735,7 +792,7 @@ pub fn build(o: &ObjSpec, seed: u64) -> Result<Obj, String> {
             })
         }
         Kind::Cipher3d | Kind::Cipher3dTerms => {
-            let x = Cipher3d::new_2ds(shape3(v, &w.cts(3, o.seeded)?).into_iter().map(Cipher2d::new).collect());
+            let x = Cipher3d::new_2ds(shape3l(o.len, v, &w.cts(3.max(o.len as usize), o.seeded)?).into_iter().map(Cipher2d::new).collect());
             if o.kind == Kind::Cipher3d {
                 let r = x.clone().expand_seed(&ctx);
                 return Ok(obj_c(x, &r, &ctx, fp_c3));
@@ -785,7 +842,7 @@ pub fn build(o: &ObjSpec, seed: u64) -> Result<Obj, String> {
                 }
                 Kind::RnspCtTerms => {
                     let c = mk_ct(v as u64)?;
-                    let terms = terms_for(n);
+                    let terms = terms_for_l(n, o.len);
                     let size = c.serialized_terms_size(&rctx, terms.len());
                     let (c1, c2, t1, t2) = (rctx.clone(), rctx.clone(), terms.clone(), terms);
                     Ok(Obj {
@@ -1352,7 +1409,7 @@ fn check_read_inner(c: &RCase, seed: u64) -> CaseOut {
 
 fn objects(thorough: bool) -> Vec<ObjSpec> {
     let mut v: Vec<ObjSpec> = vec![];
-    let o = |kind: Kind, spec: &ParamSpec, seeded: bool, variant: u8| ObjSpec { kind, spec: spec.clone(), seeded, variant };
+    let o = |kind: Kind, spec: &ParamSpec, seeded: bool, variant: u8| ObjSpec { kind, spec: spec.clone(), seeded, variant, len: 0 };
     // N = 8: two 1-byte primes (data level: one prime), three 1-byte primes (data level: two primes, room for a seed),
     // a 2-byte + 3-byte prime; N = 4: the smallest
     let s2 = |s: Scheme| ParamSpec::new(s, 8, vec![97, 193], 17);
@@ -1490,8 +1547,22 @@ struct Listed {
     len: usize,
 }
 
+/// The listing is a deterministic function of (tier, seed); `sections` is called once per recorded replay plus once for
+/// the run, so it is computed once per process.
+fn listing(cfg: &RunCfg) -> Arc<Vec<Listed>> {
+    static SMALL_LIST: std::sync::Mutex<Vec<((bool, u64), Arc<Vec<Listed>>)>> = std::sync::Mutex::new(Vec::new());
+    let k = (cfg.thorough(), cfg.seed);
+    let mut cache = SMALL_LIST.lock().unwrap_or_else(|e| e.into_inner());
+    if let Some((_, l)) = cache.iter().find(|(kk, _)| *kk == k) {
+        return l.clone();
+    }
+    let l = Arc::new(listing_uncached(cfg));
+    cache.push((k, l.clone()));
+    l
+}
+
 /// Builds every object once (main thread) to learn its write-call trace and encoding length.
-fn listing(cfg: &RunCfg) -> Vec<Listed> {
+fn listing_uncached(cfg: &RunCfg) -> Vec<Listed> {
     let mut out = vec![];
     for o in objects(cfg.thorough()) {
         let b = build_full(&o, cfg.seed);
@@ -1519,6 +1590,836 @@ fn listing(cfg: &RunCfg) -> Vec<Listed> {
         }
     }
     out
+}
+
+// ------------------------------------------------------------------------------------------
+// production-size objects: structured fault families (`big_write`, `big_read`)
+// ------------------------------------------------------------------------------------------
+//
+// The complete enumerations above are affordable only for encodings of a few KB. Code that is blocked, buffered or
+// switches to a bulk path by SIZE (a component of >= 4096 bytes, >= 4096 data words, more than 8 / 16 primes, a
+// container of more than 64 / 256 entries) never runs there. These sections drive the same oracle over objects whose
+// encodings cross 4 KiB, 32 KiB, 64 KiB and 1 MiB, with a fault family that is derived from the recorded call trace
+// of the serializer under test (so it follows whatever call granularity the code has) and grows only logarithmically
+// with the number of calls:
+//
+//  * SELECTED CALLS of a trace of m calls: all of them if m <= 768, otherwise `pick` (the first 32, the last 32 and
+//    the entries 2^k - 1, 2^k, 2^k + 1 for every k) applied to three lists: all calls, the calls at which the offered
+//    length changes (with their predecessors: the borders between header fields, components and container entries),
+//    and the bulk calls (more than 8 bytes offered).
+//  * write deviation at a selected call offering `o` bytes (`e` = min(o, cap) under a uniform cap): accept k bytes for
+//    k in {1, e-1, 4095, 4096, 4097}, k < e; Err(Other); Err(Interrupted); Ok(0). Each alone; under each uniform cap of
+//    {none, 1, 7, 4096} bytes per call (positions re-derived from the trace under the cap); and, at bulk calls, the
+//    short accept followed by a second deviation at the retry call.
+//  * truncation offsets of an encoding of `len` bytes: 0..256, len-256..len, 2^k - 1, 2^k, 2^k + 1 and 4096 j - 1,
+//    4096 j, 4096 j + 1 for all k, j; per-call read limits {1, 7, 4096, unlimited}.
+//  * read deviation at a selected read call asking for `o` bytes: Err(Interrupted), Err(Other), or deliver only k bytes
+//    for k in {1, o-1, 4095, 4096, 4097}, k < min(o, limit).
+
+#[derive(Serialize, Deserialize, Clone, Copy, Debug, PartialEq, Eq, Hash)]
+pub enum BAct {
+    /// accept / deliver only this many bytes (effective only if smaller than what the call would transfer anyway)
+    Short(u32),
+    Fail,
+    Interrupted,
+    /// writers only: Ok(0) on a non-empty buffer
+    Zero,
+}
+
+#[derive(Serialize, Deserialize, Clone, Copy, Debug, PartialEq, Eq)]
+pub enum BFam {
+    /// writer accepting at most `cap` bytes per call (0 = unlimited): fault-free run, every single deviation at the
+    /// selected calls, and short-accept + deviation-at-the-retry at the selected bulk calls
+    Write { cap: u32 },
+    /// structured truncation offsets + the complete stream, at most `limit` bytes per read call (0 = unlimited)
+    Trunc { limit: usize },
+    /// complete stream, one deviation at every selected read call
+    ReadFaults { limit: usize },
+}
+
+#[derive(Serialize, Deserialize, Clone, Debug)]
+pub struct BCase {
+    pub obj: ObjSpec,
+    pub fam: BFam,
+}
+
+const BIG_ALL_CALLS: usize = 768;
+const BIG_EDGE: usize = 32;
+const BIG_SHORTS: [u32; 3] = [4095, 4096, 4097];
+
+/// indices into a list of `m` entries: the first 32, the last 32, and 2^k - 1, 2^k, 2^k + 1 for every k
+fn pick(m: usize) -> Vec<usize> {
+    let mut v: Vec<usize> = vec![];
+    if m <= 2 * BIG_EDGE {
+        return (0..m).collect();
+    }
+    v.extend(0..BIG_EDGE);
+    v.extend(m - BIG_EDGE..m);
+    let mut p = 1usize;
+    while p - 1 < m {
+        for x in [p - 1, p, p + 1] {
+            if x < m {
+                v.push(x);
+            }
+        }
+        p <<= 1;
+    }
+    v.sort_unstable();
+    v.dedup();
+    v
+}
+
+/// the selected calls of a recorded trace (offered / requested length per call)
+fn selected_calls(trace: &[u32]) -> Vec<usize> {
+    let m = trace.len();
+    if m <= BIG_ALL_CALLS {
+        return (0..m).collect();
+    }
+    let mut v = pick(m);
+    let mut borders: Vec<usize> = vec![];
+    for j in 1..m {
+        if trace[j] != trace[j - 1] {
+            if borders.last() != Some(&(j - 1)) {
+                borders.push(j - 1);
+            }
+            borders.push(j);
+        }
+    }
+    v.extend(pick(borders.len()).into_iter().map(|i| borders[i]));
+    let bulk = bulk_calls(trace);
+    v.extend(pick(bulk.len()).into_iter().map(|i| bulk[i]));
+    v.sort_unstable();
+    v.dedup();
+    v
+}
+
+fn bulk_calls(trace: &[u32]) -> Vec<usize> {
+    (0..trace.len()).filter(|&j| trace[j] > 8).collect()
+}
+
+/// short counts for a call that would transfer `e` bytes
+fn short_counts(e: u32) -> Vec<u32> {
+    let mut v: Vec<u32> = vec![];
+    for k in [1, e.saturating_sub(1), BIG_SHORTS[0], BIG_SHORTS[1], BIG_SHORTS[2]] {
+        if k >= 1 && k < e && !v.contains(&k) {
+            v.push(k);
+        }
+    }
+    v
+}
+
+fn trunc_offsets(len: usize) -> Vec<usize> {
+    let mut v: Vec<usize> = vec![];
+    v.extend(0..len.min(256));
+    v.extend(len.saturating_sub(256)..len);
+    let mut p = 1usize;
+    while p - 1 < len {
+        v.extend([p - 1, p, p + 1]);
+        p <<= 1;
+    }
+    let mut j = 4096usize;
+    while j - 1 < len {
+        v.extend([j - 1, j, j + 1]);
+        j += 4096;
+    }
+    v.retain(|&x| x < len);
+    v.sort_unstable();
+    v.dedup();
+    v
+}
+
+fn offer_class(o: u32) -> &'static str {
+    if o <= 8 {
+        "offer<=8"
+    } else if o <= 4096 {
+        "offer<=4096"
+    } else {
+        "offer>4096"
+    }
+}
+
+/// Fault-injecting writer for large encodings: instead of keeping a second copy it compares what it accepts with the
+/// reference encoding on the fly (O(1) memory per script), and records the call trace only on request.
+struct BigWriter<'a> {
+    reference: &'a [u8],
+    pos: usize,
+    cap: usize,
+    devs: &'a [(usize, BAct)],
+    call: usize,
+    record: Option<Vec<u32>>,
+    effective: u32,
+    first_offer: u32,
+    overrun: bool,
+    /// offset of the first accepted byte that differs from the reference encoding
+    mismatch: Option<usize>,
+}
+
+impl<'a> BigWriter<'a> {
+    fn new(reference: &'a [u8], cap: u32, devs: &'a [(usize, BAct)], record: bool) -> Self {
+        BigWriter { reference, pos: 0, cap: cap as usize, devs, call: 0, record: record.then(Vec::new), effective: 0, first_offer: 0, overrun: false, mismatch: None }
+    }
+    /// `first_offer` holds the LARGEST offer a fault took effect on (under a uniform cap the first one is always a
+    /// header field; the signature should name the call class that matters)
+    fn hit(&mut self, offered: usize) {
+        self.first_offer = self.first_offer.max(offered as u32);
+        self.effective += 1;
+    }
+}
+
+impl Write for BigWriter<'_> {
+    fn write(&mut self, buf: &[u8]) -> io::Result<usize> {
+        let idx = self.call;
+        self.call += 1;
+        if idx > 2 * self.reference.len() + 64 {
+            panic!("{BOUND_MSG}: {} write calls for an encoding of {} bytes", idx, self.reference.len());
+        }
+        if let Some(t) = self.record.as_mut() {
+            t.push(buf.len() as u32);
+        }
+        if buf.is_empty() {
+            return Ok(0);
+        }
+        let mut n = buf.len();
+        let mut short = false;
+        if self.cap != 0 && self.cap < n {
+            n = self.cap;
+            short = true;
+        }
+        for &(c, act) in self.devs.iter() {
+            if c == idx {
+                match act {
+                    BAct::Short(k) => {
+                        if (k as usize) < n {
+                            n = k as usize;
+                            short = true;
+                        }
+                    }
+                    BAct::Fail => {
+                        self.hit(buf.len());
+                        return Err(io::Error::new(ErrorKind::Other, "injected write failure"));
+                    }
+                    BAct::Interrupted => {
+                        self.hit(buf.len());
+                        return Err(io::Error::new(ErrorKind::Interrupted, "injected interruption"));
+                    }
+                    BAct::Zero => {
+                        self.hit(buf.len());
+                        return Ok(0);
+                    }
+                }
+            }
+        }
+        if short {
+            self.hit(buf.len());
+        }
+        if self.pos + n > self.reference.len() {
+            self.overrun = true;
+            return Err(io::Error::new(ErrorKind::Other, "sink full: more bytes than the complete encoding"));
+        }
+        if self.mismatch.is_none() && buf[..n] != self.reference[self.pos..self.pos + n] {
+            let d = buf[..n].iter().zip(&self.reference[self.pos..]).take_while(|(a, b)| a == b).count();
+            self.mismatch = Some(self.pos + d);
+        }
+        self.pos += n;
+        Ok(n)
+    }
+    fn flush(&mut self) -> io::Result<()> {
+        Ok(())
+    }
+}
+
+/// Reader over a (possibly truncated) encoding with a per-call limit and at most one deviation; records the requested
+/// length per call on request.
+struct BigReader<'a> {
+    data: &'a [u8],
+    end: usize,
+    pos: usize,
+    limit: usize,
+    call: usize,
+    dev: Option<(usize, BAct)>,
+    record: Option<Vec<u32>>,
+    /// injected errors (short deliveries are legal reader behaviour, not faults)
+    errors: u32,
+    shorts: u32,
+}
+
+impl<'a> BigReader<'a> {
+    fn new(data: &'a [u8], end: usize, limit: usize, dev: Option<(usize, BAct)>, record: bool) -> Self {
+        BigReader { data, end, pos: 0, limit, call: 0, dev, record: record.then(Vec::new), errors: 0, shorts: 0 }
+    }
+}
+
+impl Read for BigReader<'_> {
+    fn read(&mut self, buf: &mut [u8]) -> io::Result<usize> {
+        let idx = self.call;
+        self.call += 1;
+        if idx > 2 * self.data.len() + 64 {
+            panic!("{BOUND_MSG}: {} read calls on a stream of {} bytes", idx, self.end);
+        }
+        if let Some(t) = self.record.as_mut() {
+            t.push(buf.len() as u32);
+        }
+        if buf.is_empty() {
+            return Ok(0);
+        }
+        let mut n = buf.len().min(self.end - self.pos);
+        if self.limit != 0 {
+            n = n.min(self.limit);
+        }
+        if let Some((c, a)) = self.dev {
+            if c == idx {
+                match a {
+                    BAct::Interrupted => {
+                        self.errors += 1;
+                        return Err(io::Error::new(ErrorKind::Interrupted, "injected interruption"));
+                    }
+                    BAct::Fail | BAct::Zero => {
+                        self.errors += 1;
+                        return Err(io::Error::new(ErrorKind::Other, "injected read failure"));
+                    }
+                    BAct::Short(k) => {
+                        if (k as usize) < n {
+                            n = k as usize;
+                            self.shorts += 1;
+                        }
+                    }
+                }
+            }
+        }
+        buf[..n].copy_from_slice(&self.data[self.pos..self.pos + n]);
+        self.pos += n;
+        Ok(n)
+    }
+}
+
+fn bact_label(a: BAct) -> &'static str {
+    match a {
+        BAct::Short(_) => "short",
+        BAct::Fail => "fail",
+        BAct::Interrupted => "intr",
+        BAct::Zero => "zero",
+    }
+}
+
+fn bscript_label(cap: u32, devs: &[(usize, BAct)]) -> String {
+    let mut v: Vec<&str> = vec![];
+    if cap != 0 {
+        v.push("cap");
+    }
+    v.extend(devs.iter().map(|d| bact_label(d.1)));
+    if v.is_empty() {
+        "none".into()
+    } else {
+        v.join("+")
+    }
+}
+
+#[derive(Default)]
+struct BStats {
+    scripts: u64,
+    ok: u64,
+    effective: u64,
+    errs: BTreeMap<String, u64>,
+}
+
+/// One writer script on the real serializer; same oracle as `run_wscript`. Returns the recorded trace if asked for.
+fn run_bw(b: &Built, cap: u32, devs: &[(usize, BAct)], record: bool, st: &mut BStats) -> Result<Vec<u32>, FailInfo> {
+    let mut w = BigWriter::new(&b.bytes, cap, devs, record);
+    let r = guard(|| (b.obj.ser)(&mut w));
+    st.scripts += 1;
+    if w.effective > 0 {
+        st.effective += 1;
+    }
+    let len = b.bytes.len();
+    let label = bscript_label(cap, devs);
+    let describe = || format!("writer: at most {} bytes per call, deviations (call index, action) {:?}", if cap == 0 { "unlimited".to_string() } else { cap.to_string() }, devs);
+    let tail = format!("{label}:{}", offer_class(w.first_offer));
+    if w.overrun {
+        return Err((
+            format!("writes-beyond-encoding:{tail}"),
+            format!("{}: at most the {len} bytes of the encoding are ever accepted by the sink in total", describe()),
+            format!("the serializer offered more after {} accepted bytes (result {:?})", w.pos, r.as_ref().map(|x| x.as_ref().map_err(|e| e.kind()))),
+        ));
+    }
+    match r {
+        Err(p) if p.starts_with(BOUND_MSG) => Err((format!("unbounded-writes:{tail}"), format!("{}: the call returns after finitely many writes", describe()), p)),
+        Err(p) => Err((format!("panic:{}", pclass(&p)), format!("{}: Ok with the complete encoding, or Err; never a panic", describe()), p)),
+        Ok(Err(e)) => {
+            if w.effective == 0 {
+                return Err(("err-without-fault".into(), format!("{}: no fault was injected, so Ok", describe()), format!("Err({e})")));
+            }
+            *st.errs.entry(io_err(&e)).or_insert(0) += 1;
+            Ok(w.record.take().unwrap_or_default())
+        }
+        Ok(Ok(n)) => {
+            if w.pos != len || w.mismatch.is_some() {
+                return Err((
+                    format!("ok-but-sink-differs:{tail}"),
+                    format!("{}: Ok only if the sink holds the complete {len}-byte encoding", describe()),
+                    format!("Ok({n}) with {} bytes in the sink (first difference at offset {})", w.pos, w.mismatch.unwrap_or(w.pos)),
+                ));
+            }
+            if n != len {
+                return Err((format!("ok-wrong-count:{tail}"), format!("{}: Ok({len})", describe()), format!("Ok({n}) (sink complete)")));
+            }
+            st.ok += 1;
+            Ok(w.record.take().unwrap_or_default())
+        }
+    }
+}
+
+/// A failing two-deviation script is re-run with each deviation alone, so that the signature names only what matters.
+fn reduce_bw(b: &Built, cap: u32, devs: &[(usize, BAct)], f: FailInfo) -> FailInfo {
+    if devs.len() < 2 {
+        return f;
+    }
+    let mut dummy = BStats::default();
+    for d in devs {
+        if let Err(f2) = run_bw(b, cap, &[*d], false, &mut dummy) {
+            if symptom(&f2.0) == symptom(&f.0) {
+                return f2;
+            }
+        }
+    }
+    f
+}
+
+fn big_write_family(b: &Built, cap: u32, st: &mut BStats) -> Result<(), FailInfo> {
+    let trace = run_bw(b, cap, &[], true, st)?;
+    let eff = |o: u32| if cap != 0 { o.min(cap) } else { o };
+    let acts_at = |o: u32| -> Vec<BAct> {
+        let mut v: Vec<BAct> = short_counts(eff(o)).into_iter().map(BAct::Short).collect();
+        if o > 0 {
+            v.extend([BAct::Fail, BAct::Interrupted, BAct::Zero]);
+        }
+        v
+    };
+    for j in selected_calls(&trace) {
+        for act in acts_at(trace[j]) {
+            run_bw(b, cap, &[(j, act)], false, st)?;
+        }
+    }
+    // the retry after a short accept of a bulk call
+    let bulk = bulk_calls(&trace);
+    let chosen: Vec<usize> = if trace.len() <= BIG_ALL_CALLS { bulk } else { pick(bulk.len()).into_iter().map(|i| bulk[i]).collect() };
+    for j in chosen {
+        let e = eff(trace[j]);
+        for k in short_counts(e) {
+            // the retry offers the unwritten rest (under a cap: only `cap` bytes of it are taken)
+            let rest = trace[j] - k;
+            for act in acts_at(rest) {
+                let devs = [(j, BAct::Short(k)), (j + 1, act)];
+                if let Err(f) = run_bw(b, cap, &devs, false, st) {
+                    return Err(reduce_bw(b, cap, &devs, f));
+                }
+            }
+        }
+    }
+    Ok(())
+}
+
+/// One reader script; same oracle as `run_rscript` (a short delivery is not a fault: the object must be restored).
+fn run_br(b: &Built, end: usize, limit: usize, dev: Option<(usize, BAct)>, record: bool, st: &mut BStats) -> Result<Vec<u32>, FailInfo> {
+    let mut r = BigReader::new(&b.bytes, end, limit, dev, record);
+    let res = guard(|| (b.obj.de)(&mut r));
+    st.scripts += 1;
+    if r.errors > 0 || r.shorts > 0 || end < b.bytes.len() {
+        st.effective += 1;
+    }
+    let len = b.bytes.len();
+    let describe = || {
+        format!(
+            "stream of {len} bytes cut after {end}, at most {} bytes per read call, deviation (call index, action) {:?}",
+            if limit == 0 { "unlimited".to_string() } else { limit.to_string() },
+            dev
+        )
+    };
+    let what = match dev {
+        Some((_, a)) => bact_label(a),
+        None => "none",
+    };
+    match res {
+        Err(p) if p.starts_with(BOUND_MSG) => Err((format!("unbounded-reads:{what}"), format!("{}: the call returns after finitely many reads", describe()), p)),
+        Err(p) => Err((format!("panic:{}", pclass(&p)), format!("{}: Err (or the exact object for a complete stream); never a panic", describe()), p)),
+        Ok(Err(e)) => {
+            if end == len && r.errors == 0 {
+                return Err((format!("complete-stream-err:{what}"), format!("{}: the object is restored", describe()), format!("Err({e})")));
+            }
+            *st.errs.entry(io_err(&e)).or_insert(0) += 1;
+            Ok(r.record.take().unwrap_or_default())
+        }
+        Ok(Ok(fp)) => {
+            if end < len {
+                return Err((
+                    format!("truncated-ok:{what}"),
+                    format!("{}: Err, the encoding is incomplete", describe()),
+                    format!("Ok(object) after consuming {} bytes in {} read calls{}", r.pos, r.call, if fp == b.fp { " (equal to the original!)" } else { "" }),
+                ));
+            }
+            if fp != b.fp {
+                return Err((format!("restored-differs:{what}"), format!("{}: the restored object equals the original", describe()), "Ok(a different object)".into()));
+            }
+            if r.pos != len {
+                return Err((format!("restored-leftover:{what}"), format!("{}: all {len} bytes consumed", describe()), format!("{} consumed", r.pos)));
+            }
+            st.ok += 1;
+            Ok(r.record.take().unwrap_or_default())
+        }
+    }
+}
+
+fn big_read_family(b: &Built, fam: BFam, st: &mut BStats) -> Result<(), FailInfo> {
+    let len = b.bytes.len();
+    match fam {
+        BFam::Trunc { limit } => {
+            for end in trunc_offsets(len) {
+                run_br(b, end, limit, None, false, st)?;
+            }
+            run_br(b, len, limit, None, false, st)?;
+        }
+        BFam::ReadFaults { limit } => {
+            let trace = run_br(b, len, limit, None, true, st)?;
+            for j in selected_calls(&trace) {
+                let e = if limit != 0 { trace[j].min(limit as u32) } else { trace[j] };
+                run_br(b, len, limit, Some((j, BAct::Interrupted)), false, st)?;
+                run_br(b, len, limit, Some((j, BAct::Fail)), false, st)?;
+                for k in short_counts(e) {
+                    run_br(b, len, limit, Some((j, BAct::Short(k))), false, st)?;
+                }
+            }
+        }
+        BFam::Write { .. } => {}
+    }
+    Ok(())
+}
+
+fn check_big(c: &BCase, seed: u64, section: &'static str) -> CaseOut {
+    arm_abort_record(section, section, &c.obj, c, seed);
+    let out = check_big_inner(c, seed, section);
+    disarm_abort_record();
+    out
+}
+
+fn check_big_inner(c: &BCase, seed: u64, section: &'static str) -> CaseOut {
+    let b = built(&c.obj, seed);
+    let b = match b.as_ref() {
+        Ok(b) => b,
+        Err(e) => return CaseOut::skip(&format!("object cannot be built: {e}")),
+    };
+    if let Err((class, exp, obs)) = &b.baseline {
+        return CaseOut::fail(key(section, &c.obj, class), format!("[{}] {exp}", kind_name(&c.obj)), obs.clone());
+    }
+    let mut st = BStats::default();
+    let r = match c.fam {
+        BFam::Write { cap } => big_write_family(b, cap, &mut st),
+        fam => big_read_family(b, fam, &mut st),
+    };
+    match r {
+        Err((class, exp, obs)) => CaseOut::fail(key(section, &c.obj, &class), format!("[{} {}, encoding of {} B] {exp}", kind_name(&c.obj), c.obj.spec.label(), b.bytes.len()), obs),
+        Ok(()) => {
+            let errs: Vec<&String> = st.errs.keys().collect();
+            let fam = match c.fam {
+                BFam::Write { cap } => (0u8, cap as usize),
+                BFam::Trunc { limit } => (1, limit),
+                BFam::ReadFaults { limit } => (2, limit),
+            };
+            CaseOut::pass(st.effective > 0, h64(&(kind_name(&c.obj), fam, st.ok > 0, errs)), st.scripts)
+        }
+    }
+}
+
+/// The objects of the production-size sections. Quick: many-prime chains at N = 8 (8, 9, 10, 16, 17, 18 primes, residues
+/// of 1..8 bytes), one N = 1024 family whose RNS components are 3072 / 4096 / 5120 bytes, N = 512 x 8 bytes and
+/// N = 2048 x 2 bytes (4096-byte components), N = 4096 x 8 bytes (32 KiB components), vectors of 4095 / 4096 / 4097
+/// words, containers of 8..65 entries.
+/// Thorough adds N = 256..8192, up to 10 primes at N = 4096 (ciphertexts of size 2..4 up to 1.2 MB), keys and
+/// containers of every kind at N = 256, containers of up to 1024 entries.
+fn big_objects(thorough: bool) -> Vec<ObjSpec> {
+    let mut v: Vec<ObjSpec> = vec![];
+    let o = |kind: Kind, spec: &ParamSpec, seeded: bool, variant: u8, len: u32| ObjSpec { kind, spec: spec.clone(), seeded, variant, len };
+    let schemes = Scheme::all();
+
+    // (a) many primes at N = 8; residue widths of 1..8 bytes in one chain
+    let widths = [8usize, 12, 20, 28, 36, 44, 52, 60, 16, 24, 32, 40, 48, 56, 59, 14, 22, 30];
+    for (i, &k) in [8usize, 9, 10, 16, 17, 18].iter().enumerate() {
+        let s = schemes[i % 3];
+        let spec = ParamSpec::new(s, 8, he::chain(8, &widths[..k]), 17);
+        v.push(o(Kind::VecModulus, &spec, false, 0, 0));
+        v.push(o(Kind::Params, &spec, false, 0, 0));
+        v.push(o(Kind::Ct, &spec, false, 4, 0));
+        v.push(o(Kind::Ct, &spec, true, 2, 0));
+        v.push(o(Kind::CtFull, &spec, false, 3, 0));
+        v.push(o(Kind::CtTerms, &spec, false, 2, 5));
+        v.push(o(Kind::RelinKeys, &spec, i % 2 == 0, 0, 0));
+        if k == 9 || k == 17 || thorough {
+            v.push(o(Kind::PublicKey, &spec, i % 2 == 1, 0, 0));
+            v.push(o(Kind::KSwitchKeys, &spec, i % 2 == 1, 0, 0));
+            v.push(o(Kind::GaloisKeys, &spec, false, 0, 0));
+            v.push(o(Kind::Cipher2d, &spec, false, 2, 9));
+            v.push(o(Kind::Plain, &spec, false, 1, 0));
+            v.push(o(Kind::SecretKey, &spec, false, 0, 0));
+        }
+        if s != Scheme::CKKS && (k == 9 || k == 16 || thorough) {
+            v.push(o(Kind::RnspCt, &spec, false, 3, 0));
+            v.push(o(Kind::RnspRelinKeys, &spec, true, 0, 0));
+        }
+    }
+
+    // (b) components that cross 4096 bytes
+    let ct_family = |v: &mut Vec<ObjSpec>, spec: &ParamSpec, full: bool| {
+        let n = spec.n as u32;
+        v.push(o(Kind::Ct, spec, false, 2, 0));
+        v.push(o(Kind::Ct, spec, true, 2, 0)); // genuine symmetric encryption (BFV / BGV), synthetic for CKKS
+        v.push(o(Kind::CtFull, spec, false, 2, 0));
+        v.push(o(Kind::CtFull, spec, true, 3, 0)); // synthetic seeded
+        v.push(o(Kind::CtTerms, spec, false, 2, n * 2 / 3));
+        v.push(o(Kind::PublicKey, spec, true, 0, 0));
+        if full {
+            v.push(o(Kind::Ct, spec, false, 3, 0));
+            v.push(o(Kind::Ct, spec, true, 3, 0)); // synthetic seeded
+            v.push(o(Kind::CtTerms, spec, true, 2, n / 2 + 1));
+            v.push(o(Kind::Poly, spec, false, 0, 0));
+            v.push(o(Kind::PublicKey, spec, false, 0, 0));
+            v.push(o(Kind::Plain, spec, false, 1, 0));
+            v.push(o(Kind::SecretKey, spec, false, 0, 0));
+        }
+    };
+    let n1024 = |s: Scheme| ParamSpec::new(s, 1024, he::chain(1024, &[24, 32, 40, 48]), 17);
+    ct_family(&mut v, &n1024(Scheme::BFV), true);
+    if thorough {
+        ct_family(&mut v, &n1024(Scheme::BGV), true);
+        ct_family(&mut v, &n1024(Scheme::CKKS), true);
+    } else {
+        v.push(o(Kind::Ct, &n1024(Scheme::BGV), true, 2, 0));
+        v.push(o(Kind::CtFull, &n1024(Scheme::CKKS), false, 2, 0));
+        v.push(o(Kind::CtTerms, &n1024(Scheme::CKKS), true, 3, 683));
+    }
+    let n512 = |s: Scheme| ParamSpec::new(s, 512, he::chain(512, &[56, 60, 60]), 17);
+    let n2048 = |s: Scheme| ParamSpec::new(s, 2048, he::chain(2048, &[14, 24, 30]), 17);
+    ct_family(&mut v, &n512(Scheme::BGV), thorough);
+    ct_family(&mut v, &n2048(Scheme::CKKS), thorough);
+
+    // one 32 KiB component (N = 4096 x 8 bytes) and an encoding just above 64 KiB also in the quick tier
+    let n4096w = |s: Scheme| ParamSpec::new(s, 4096, he::chain(4096, &[60, 60]), 17);
+    v.push(o(Kind::Poly, &n4096w(Scheme::BGV), false, 0, 0));
+    v.push(o(Kind::Ct, &n4096w(Scheme::BFV), false, 2, 0));
+
+    // (c) word counts and container lengths around 8 .. 4096
+    let tiny = |s: Scheme| ParamSpec::new(s, 8, vec![97, 193], 17);
+    let lens_words: &[u32] = if thorough { &[255, 256, 257, 511, 512, 513, 1023, 1025, 4095, 4096, 4097, 8191, 8193] } else { &[4095, 4096, 4097] };
+    for &l in lens_words {
+        v.push(o(Kind::VecU64, &tiny(Scheme::BFV), false, 0, l));
+    }
+    let n4096_plain = ParamSpec::new(Scheme::BFV, 4096, he::chain(4096, &[30, 30]), 17);
+    for &l in if thorough { &[4095u32, 4096][..] } else { &[4096u32][..] } {
+        v.push(o(Kind::Plain, &n4096_plain, false, 0, l));
+    }
+    let lens_c: &[u32] = if thorough { &[8, 9, 16, 17, 64, 65, 255, 256, 257, 1024] } else { &[8, 9, 16, 17, 65] };
+    for (i, &l) in lens_c.iter().enumerate() {
+        let s = schemes[i % 3];
+        v.push(o(Kind::Cipher1d, &tiny(s), false, 2, l));
+        v.push(o(Kind::Plain1d, &tiny(s), false, 1, l));
+        if l >= 17 && (thorough || l == 65) {
+            v.push(o(Kind::Cipher2d, &tiny(s), false, 2, l));
+            v.push(o(Kind::Cipher3d, &tiny(s), false, 2, l));
+            v.push(o(Kind::Cipher2dTerms, &tiny(s), false, 2, l));
+            v.push(o(Kind::Plain2d, &tiny(s), false, 2, l));
+            v.push(o(Kind::Plain3d, &tiny(s), false, 2, l));
+        }
+    }
+    for &cnt in if thorough { &[8u8, 9, 16, 17, 65][..] } else { &[9u8][..] } {
+        v.push(o(Kind::RnspVecCt, &tiny(Scheme::BFV), false, cnt, 0));
+    }
+
+    if thorough {
+        // (d) N = 4096: 2 / 7 / 8-byte components (8 KiB, 28 KiB, 32 KiB), ten primes, sizes up to 4; N = 8192 x 8 bytes = 64 KiB
+        let n4096 = |s: Scheme| ParamSpec::new(s, 4096, he::chain(4096, &[16, 56, 60, 60]), 17);
+        ct_family(&mut v, &n4096(Scheme::BFV), true);
+        ct_family(&mut v, &n4096(Scheme::CKKS), false);
+        let ten = |s: Scheme| ParamSpec::new(s, 4096, he::chain(4096, &[24, 24, 30, 30, 36, 40, 48, 50, 60, 60]), 17);
+        v.push(o(Kind::Ct, &ten(Scheme::BFV), false, 2, 0));
+        v.push(o(Kind::Ct, &ten(Scheme::BGV), true, 2, 0));
+        v.push(o(Kind::Ct, &ten(Scheme::CKKS), false, 4, 0));
+        v.push(o(Kind::CtFull, &ten(Scheme::BGV), false, 4, 0));
+        v.push(o(Kind::CtFull, &ten(Scheme::BFV), true, 3, 0));
+        v.push(o(Kind::CtTerms, &ten(Scheme::CKKS), false, 2, 2731));
+        v.push(o(Kind::PublicKey, &ten(Scheme::BGV), true, 0, 0));
+        let three = |s: Scheme| ParamSpec::new(s, 4096, he::chain(4096, &[40, 50, 60]), 17);
+        v.push(o(Kind::RelinKeys, &three(Scheme::BFV), false, 0, 0));
+        v.push(o(Kind::RelinKeys, &three(Scheme::CKKS), true, 0, 0));
+        v.push(o(Kind::KSwitchKeys, &three(Scheme::BGV), true, 0, 0));
+        let two = |s: Scheme| ParamSpec::new(s, 4096, he::chain(4096, &[30, 40]), 17);
+        v.push(o(Kind::GaloisKeys, &two(Scheme::BFV), false, 0, 0)); // 4096 key slots, one of them filled
+        v.push(o(Kind::GaloisKeys, &two(Scheme::BGV), true, 2, 0)); // 4096 empty key slots
+        v.push(o(Kind::RnspCt, &two(Scheme::BFV), false, 2, 0));
+        v.push(o(Kind::RnspCtFull, &two(Scheme::BGV), true, 2, 0));
+        v.push(o(Kind::RnspCtTerms, &two(Scheme::BFV), false, 2, 1366));
+        v.push(o(Kind::Cipher1d, &two(Scheme::CKKS), false, 2, 3));
+        let n8192 = |s: Scheme| ParamSpec::new(s, 8192, he::chain(8192, &[60, 60]), 17);
+        v.push(o(Kind::Ct, &n8192(Scheme::BFV), false, 2, 0));
+        v.push(o(Kind::CtFull, &n8192(Scheme::CKKS), true, 3, 0));
+        v.push(o(Kind::Poly, &n8192(Scheme::BGV), false, 0, 0));
+
+        // (e) every kind of key and container at N = 256 with five primes of 3..8 bytes
+        for (i, s) in schemes.into_iter().enumerate() {
+            let spec = ParamSpec::new(s, 256, he::chain(256, &[20, 30, 40, 50, 60]), 17);
+            ct_family(&mut v, &spec, false);
+            v.push(o(Kind::Ct, &spec, false, 4, 0));
+            v.push(o(Kind::RelinKeys, &spec, i == 0, 0, 0));
+            v.push(o(Kind::KSwitchKeys, &spec, i == 1, 0, 0));
+            v.push(o(Kind::GaloisKeys, &spec, i == 2, 1, 0)); // the default set
+            v.push(o(Kind::GaloisKeys, &spec, i != 2, 0, 0));
+            v.push(o(Kind::Cipher1d, &spec, i == 0, 2, 9));
+            v.push(o(Kind::Cipher2d, &spec, i == 1, 2, 9));
+            v.push(o(Kind::Cipher3d, &spec, i == 2, 2, 17));
+            v.push(o(Kind::Cipher1dTerms, &spec, i == 2, 2, 9));
+            v.push(o(Kind::Cipher2dTerms, &spec, i == 0, 2, 9));
+            v.push(o(Kind::Cipher3dTerms, &spec, i == 1, 2, 17));
+            v.push(o(Kind::Plain1d, &spec, false, 1, 9));
+            v.push(o(Kind::Plain2d, &spec, false, 2, 9));
+            v.push(o(Kind::Plain3d, &spec, false, 2, 17));
+            if s != Scheme::CKKS {
+                v.push(o(Kind::RnspCt, &spec, i == 1, 2, 0));
+                v.push(o(Kind::RnspCtFull, &spec, i == 0, 2, 0));
+                v.push(o(Kind::RnspCtTerms, &spec, false, 2, 100));
+                v.push(o(Kind::RnspVecCt, &spec, i == 0, 3, 0));
+                v.push(o(Kind::RnspPublicKey, &spec, i == 1, 0, 0));
+                v.push(o(Kind::RnspRelinKeys, &spec, i == 0, 0, 0));
+                v.push(o(Kind::RnspGaloisKeys, &spec, i == 1, 0, 0));
+            }
+        }
+    }
+    let mut seen = std::collections::HashSet::new();
+    v.retain(|x| seen.insert(x.clone()));
+    v
+}
+
+struct BigListed {
+    obj: ObjSpec,
+    len: usize,
+    calls: usize,
+}
+
+/// Builds every production-size object once, on all cores, to learn its encoding length and write-call count (the
+/// bound strings quote them and the cases are ordered by them); cached for the process.
+fn big_listing(cfg: &RunCfg) -> Arc<Vec<BigListed>> {
+    static BIG_LIST: std::sync::Mutex<Vec<((bool, u64), Arc<Vec<BigListed>>)>> = std::sync::Mutex::new(Vec::new());
+    let k = (cfg.thorough(), cfg.seed);
+    let mut guard_ = BIG_LIST.lock().unwrap_or_else(|e| e.into_inner());
+    if let Some((_, l)) = guard_.iter().find(|(kk, _)| *kk == k) {
+        return l.clone();
+    }
+    let objs = big_objects(cfg.thorough());
+    let next = std::sync::atomic::AtomicUsize::new(0);
+    let out: std::sync::Mutex<Vec<(usize, usize, usize)>> = std::sync::Mutex::new(vec![]);
+    let seed = cfg.seed;
+    std::thread::scope(|sc| {
+        for _ in 0..cfg.threads.clamp(1, 32) {
+            sc.spawn(|| {
+                heathcliff_thread_init();
+                loop {
+                    let i = next.fetch_add(1, std::sync::atomic::Ordering::SeqCst);
+                    if i >= objs.len() {
+                        break;
+                    }
+                    let (len, calls) = match guard(|| build_full(&objs[i], seed)) {
+                        Ok(Ok(b)) if b.baseline.is_ok() => {
+                            let mut st = BStats::default();
+                            let calls = run_bw(&b, 0, &[], true, &mut st).map(|t| t.len()).unwrap_or(0);
+                            (b.bytes.len(), calls)
+                        }
+                        Ok(Ok(b)) => (b.bytes.len(), 0),
+                        Ok(Err(e)) => {
+                            eprintln!("[C15] object {:?} {} seeded={} variant={} len={} cannot be built: {e}", objs[i].kind, objs[i].spec.label(), objs[i].seeded, objs[i].variant, objs[i].len);
+                            (0, 0)
+                        }
+                        Err(p) => {
+                            eprintln!("[C15] object {:?} {}: panic while building: {p}", objs[i].kind, objs[i].spec.label());
+                            (0, 0)
+                        }
+                    };
+                    out.lock().unwrap_or_else(|e| e.into_inner()).push((i, len, calls));
+                }
+            });
+        }
+    });
+    let mut sizes = out.into_inner().unwrap_or_else(|e| e.into_inner());
+    sizes.sort();
+    let mut list: Vec<BigListed> = objs.into_iter().zip(sizes).map(|(obj, (_, len, calls))| BigListed { obj, len, calls }).collect();
+    // simplest first; ties in the order of the list
+    list.sort_by_key(|l| l.len);
+    if std::env::var("VERIF_C15_LIST").is_ok() {
+        for l in list.iter() {
+            eprintln!("[C15] big object {:?} {} seeded={} variant={} len={}: {} B, {} write calls", l.obj.kind, l.obj.spec.label(), l.obj.seeded, l.obj.variant, l.obj.len, l.len, l.calls);
+        }
+    }
+    let l = Arc::new(list);
+    guard_.push((k, l.clone()));
+    l
+}
+
+fn big_sections(cfg: &RunCfg, v: &mut Vec<Box<dyn AnySection>>) {
+    let seed = cfg.seed;
+    let list = big_listing(cfg);
+    let nobj = list.len();
+    let minlen = list.iter().map(|l| l.len).min().unwrap_or(0);
+    let maxlen = list.iter().map(|l| l.len).max().unwrap_or(0);
+    let maxcalls = list.iter().map(|l| l.calls).max().unwrap_or(0);
+    let over = |t: usize| list.iter().filter(|l| l.len > t).count();
+    let maxn = list.iter().map(|l| l.obj.spec.n).max().unwrap_or(0);
+    let maxk = list.iter().map(|l| l.obj.spec.q.len()).max().unwrap_or(0);
+    let sizes = format!(
+        "{nobj} objects of all kinds, N = 8..{maxn}, 2..{maxk} primes (residues of 1..8 bytes), ciphertext sizes 2..4, containers / vectors of up to {} entries; encodings {minlen}..{maxlen} B ({} > 4 KiB, {} > 32 KiB, {} > 64 KiB), up to {maxcalls} write calls",
+        list.iter().map(|l| l.obj.len).max().unwrap_or(0),
+        over(4096),
+        over(32768),
+        over(65536)
+    );
+
+    let caps = [0u32, 1, 7, 4096];
+    let mut cases: Vec<BCase> = vec![];
+    for l in list.iter() {
+        for &cap in &caps {
+            cases.push(BCase { obj: l.obj.clone(), fam: BFam::Write { cap } });
+        }
+    }
+    v.push(
+        E1::new(
+            "big_write",
+            &format!(
+                "{sizes} x writers accepting at most {{unlimited, 1, 7, 4096}} bytes per call: fault-free run + one deviation {{accept 1, e-1, 4095, 4096, 4097 < e, Other, Interrupted, Ok(0)}} at every selected call \
+                 (all calls of traces <= {BIG_ALL_CALLS}; else first/last {BIG_EDGE} and every 2^k-1, 2^k, 2^k+1-th of: all calls, offer-length borders, bulk calls) + short accept then one deviation at the retry for the selected bulk (> 8 B) calls"
+            ),
+            cases.into_iter(),
+            move |c: &BCase| check_big(c, seed, "big_write"),
+        )
+        .batch(4)
+        .deadline(Duration::from_secs(240)),
+    );
+
+    let limits = [1usize, 7, 4096, 0];
+    let mut cases: Vec<BCase> = vec![];
+    for l in list.iter() {
+        for &limit in &limits {
+            cases.push(BCase { obj: l.obj.clone(), fam: BFam::Trunc { limit } });
+        }
+        for &limit in &limits {
+            cases.push(BCase { obj: l.obj.clone(), fam: BFam::ReadFaults { limit } });
+        }
+    }
+    v.push(
+        E1::new(
+            "big_read",
+            &format!(
+                "{sizes} x read limits {{1, 7, 4096, unlimited}}: truncation at every offset of the first 256 and the last 256 bytes and at 2^k-1, 2^k, 2^k+1, 4096j-1, 4096j, 4096j+1 (Err required) + the complete stream (exact restoration required); \
+                 complete stream with one deviation {{Interrupted, Other, deliver 1, e-1, 4095, 4096, 4097 < e}} at every selected read call (selection as for big_write)"
+            ),
+            cases.into_iter(),
+            move |c: &BCase| check_big(c, seed, "big_read"),
+        )
+        .batch(4)
+        .deadline(Duration::from_secs(240)),
+    );
 }
 
 pub fn sections(cfg: &RunCfg) -> Vec<Box<dyn AnySection>> {
@@ -1646,5 +2547,6 @@ pub fn sections(cfg: &RunCfg) -> Vec<Box<dyn AnySection>> {
         )
         .deadline(Duration::from_secs(20)),
     );
+    big_sections(cfg, &mut v);
     v
 }
